@@ -28,6 +28,7 @@ SPECS = [
     (Func("t_for"), [(a,) for a in range(-12, 20)]),
     (Func("t_while", fuels=["30"]), [(a,) for a in list(range(-4, 30)) + [97, 871]]),
     (Func("t_while_continue", fuels=["Int.toNat a + 1"]), [(a,) for a in range(-3, 15)]),
+    (Func("t_for_while", fuels=["Int.toNat a + 1"]), [(a,) for a in range(-2, 9)]),
     (Func("t_minmax"), list(itertools.product(SMALL[::2], SMALL[1::2], SMALL[::3]))),
     (Func("t_bool"), list(itertools.product([-1, 0, 1], repeat=2))),
     (Func("t_shadow"), [(a,) for a in INTS]),
